@@ -88,6 +88,55 @@ func runC13(r *engine.Run) {
 			}
 		}
 		r.Explore(x)
+		// long histories of additions (the search above stops at three custom channels): after each of 40
+		// AddChannel calls of one kind the default channels, read through the accessors, are still the
+		// Regional Parameters' defaults, and the closure obligations hold
+		name := name
+		r.PartDims("deep-adds/"+string(name), []string{"kind of added channel:3", "additions: 1..40 (checked after each)"}, 3, func(c *engine.Case) {
+			b := newBand(cfg)
+			kinds := [][2]int{{hi, hi}, {lo, lo}, {init.CFListMinDR, init.CFListMaxDR}}
+			mm := kinds[c.Index]
+			type chv struct {
+				f        uint32
+				min, max int
+			}
+			read := func() (up, down []chv, problem string) {
+				for i := 0; i < nStd; i++ {
+					u, err1 := b.GetUplinkChannel(i)
+					d, err2 := b.GetDownlinkChannel(i)
+					if err1 != nil || err2 != nil {
+						return nil, nil, fmt.Sprintf("default channel %d is not readable: %v %v", i, err1, err2)
+					}
+					up = append(up, chv{u.Frequency, u.MinDR, u.MaxDR})
+					down = append(down, chv{d.Frequency, d.MinDR, d.MaxDR})
+				}
+				return
+			}
+			up0, down0, problem := read()
+			if problem != "" {
+				c.Fail("deep-adds/default-channel-unreadable", fmt.Sprintf("%v: %s", name, problem), nil)
+				return
+			}
+			for k := 1; k <= 40; k++ {
+				c.Eval()
+				n := len(b.GetUplinkChannelIndices())
+				if err := b.AddChannel(base+10000000+uint32(n)*200000, mm[0], mm[1]); err != nil {
+					c.Fail("deep-adds/add-refused", fmt.Sprintf("%v: addition number %d (DR%d..%d) refused: %v", name, k, mm[0], mm[1], err), nil)
+					return
+				}
+				up, down, problem := read()
+				if problem != "" {
+					c.Fail("deep-adds/default-channel-unreadable", fmt.Sprintf("%v after %d additions: %s", name, k, problem), nil)
+					return
+				}
+				if fmt.Sprint(up) != fmt.Sprint(up0) || fmt.Sprint(down) != fmt.Sprint(down0) {
+					c.Fail(fmt.Sprintf("defaults/%s/changed-by-additions", regionOf(name).Name), fmt.Sprintf("%v after %d additions (DR%d..%d): default channels are uplink %v downlink %v; the band's defaults are uplink %v downlink %v", name, k, mm[0], mm[1], up, down, up0, down0), nil)
+					return
+				}
+				x.CheckState(c, b, nil)
+			}
+			c.Outcome("deep-adds/40-additions")
+		})
 	}
 	bandGetterHistory(r)
 	bandInstanceHistory(r)
